@@ -26,7 +26,7 @@ AXES = [None, "time", "leadtime", "year", "month", "week", "day", "timeofday", "
         "dayofmonth", "location", "elev", "lat", "lon", "threshold", "leadtimeday", "no", "obs", "fcst"]
 TYPES = ["plot", "text", "csv", "map", "rank", "maprank", "impact", "mapimpact"]
 VARIANTS = ["none", "r1", "r3", "q2", "r1q1", "b_within", "agg_median", "b_below_eq", "r1_within", "q1", "agg_min", "agg_range", "agg_iqr", "agg_q", "agg_count", "sub_tod", "sub_d", "sub_o", "r3_aggmax", "r3_aggq"]
-SHAPES = ["prob2", "single", "allmiss", "det1", "nc2c", "five", "noobs"]
+SHAPES = ["prob2", "single", "allmiss", "det1", "nc2c", "five", "noobs", "x0pit"]
 
 
 def metric_names():
@@ -50,6 +50,16 @@ def build_shape(shape, workdir, seed):
             inp["locs"] = [s0]
             inp["cells"] = {k: v for k, v in inp["cells"].items()
                             if k.split("|")[0] == str(t0) and k.split("|")[2] == gen.fnum(s0[0])}
+    elif shape == "x0pit":
+        # a variable with a discrete mass at 0 (precipitation): "# x0: 0" in the header switches the PIT randomisation on;
+        # the two files cover different times / lead times / locations
+        ds = gen.make_dataset(rng, n_inputs=2, fmt="text", prob=True, ens=True, pit=True, miss=0.1, sparse=0.0, same_dims=False,
+                              thresholds=[0.0, 5.0, 10.0], quantiles=[0.1, 0.5, 0.9], vrange=(0, 12))
+        for inp in ds["inputs"]:
+            inp["variable"] = {"name": "Precip", "units": "mm", "x0": 0.0, "x1": None}
+            for c in inp["cells"].values():
+                if c.get("obs") is not None and rng.random() < 0.3:
+                    c["obs"] = 0.0
     elif shape == "noobs":
         # observations have not arrived yet: every obs is missing, so no case is valid anywhere
         ds = gen.make_dataset(rng, n_inputs=2, fmt="text", prob=True, ens=True, pit=True, miss=0.05, sparse=0.0,
